@@ -74,8 +74,18 @@ def gen_curve(rng):
 
 
 def gen_path(rng):
-    fam = rng.choice(['shape', 'chain-open', 'chain-closed', 'staircase', 'reflatten'])
+    fam = rng.choice(['shape', 'chain-open', 'chain-closed', 'staircase', 'reflatten', 'collinear-run'])
     if fam == 'shape': return sl.shape(rng)
+    if fam == 'collinear-run':
+        # a straight stem with a redundant on-curve node: two (or three) consecutive Lines continuing in the same direction, next to a curve
+        a = P(float(rng.randint(-100, 100)), float(rng.randint(-100, 100))); d = P(float(rng.randint(-5, 5)), float(rng.randint(1, 40)))
+        pts = [a, a + d * rng.randint(1, 6)]
+        for _ in range(rng.randint(1, 2)): pts.append(pts[-1] + d * rng.randint(1, 6))
+        segs = [Line(pts[i], pts[i + 1]) for i in range(len(pts) - 1)]
+        e = pts[-1] + P(float(rng.randint(20, 80)), float(rng.randint(-30, 30)))
+        segs.append(CubicBezier(pts[-1], pts[-1] + P(10.0, 25.0), e + P(-10.0, 25.0), e))
+        q = BezierPath.fromSegments(segs); q.closed = False
+        return fam, q
     if fam == 'chain-open': return fam, sl.chain(rng, rng.randint(1, 6), False)
     if fam == 'chain-closed': return fam, sl.chain(rng, rng.randint(2, 6), True)
     if fam == 'staircase': return fam, sl.staircase(rng, sl.split_int(rng, rng.choice([16, 64, 100, 256]), rng.randint(1, 6)), rng.random() < 0.5)
@@ -117,6 +127,8 @@ def correspond(ctx):
     out = {'n': res['n'], 'agree': res['agree'], 'failing': res['failing'], 'errors': res['errors'], 'distribution': dist,
            'samples': meta[:2], 'kinds': {'kernels': 0, 'hand_models': 4}}
     if res['failing']: out['first_disagreement'] = [meta[i] for i in res['failing'][:3]]
+    # the flatteners as REGENERATED from the source (Gen/Sample.v; equal to the hand model by Proofs/Bridge2.v)
+    kernels.merge_cross_check(out, 'C17', ['Line_flatten', 'Quad_flatten', 'Cubic_flatten'], ctx.n(25, 300), ctx.rng)
     return out
 
 
@@ -353,6 +365,16 @@ def search(ctx):
         ff = _g.freshness(rng, s, {'flatten': lambda x: x.flatten(d)})
         ev += 1
         if ff: fails.append({'class': 'C17-stale-state', 'what': ff[0], 'input': None, 'observed': ff, 'expected': 'same as a fresh object'})
+    # path-level stale state: asking must not change later answers, and an in-place edit of a segment through the path's own
+    # segment list (or of its Point objects) must be seen by the next query
+    import gen as _gq
+    from beziers.point import Point as _PQ
+    for _ in range(ctx.n(25, 500)):
+        _segs = _gq.closed_contour(rng, ints=rng.random() < 0.3)
+        _qp = _PQ(_segs[0][0].x + rng.uniform(-150, 150), _segs[0][0].y + rng.uniform(-150, 150))
+        _ff = _gq.path_freshness(rng, _segs, {'flatten(8)': lambda p: [s.points for s in p.flatten(8).asSegments()], 'flatten(25)': lambda p: [s.points for s in p.flatten(25).asSegments()]}, closed=True, disturb=[lambda p: p.pointIsInside(_qp), lambda p: p.bounds(), lambda p: p.length, lambda p: p.area])
+        ev += 1; dist['stale-state/path'] = dist.get('stale-state/path', 0) + 1
+        if _ff: fails.append({'class': 'C17-stale-state', 'what': _ff[0], 'input': None, 'observed': _ff[:3], 'expected': 'the answers of a freshly built path with the same control points'})
     return {'evaluations': ev, 'distinct_nontrivial': len(seen), 'failures': fails, 'distribution': dist, 'samples': samples, 'measured': measured}
 
 
